@@ -412,8 +412,11 @@ impl CustomMsg for Empty {}
 
 // ============================================================ storage model (DESIGN 4.2)
 pub trait Storage { spec fn view(&self) -> Raw; }
+pub uninterp spec fn addr_ok(s: Seq<char>) -> bool;
 pub trait Api {
-    fn addr_validate(&self, human: &str) -> (r: StdResult<Addr>) ensures r is Ok ==> r->Ok_0@ == human@;
+    /// whether a string is accepted as an address is a fixed (deterministic, state-independent) property of the string (A: the chain's
+    /// bech32 / MockApi validation is a pure function of the text)
+    fn addr_validate(&self, human: &str) -> (r: StdResult<Addr>) ensures r is Ok ==> r->Ok_0@ == human@, r is Ok <==> addr_ok(human@);
 }
 pub trait CustomQuery {}
 impl CustomQuery for Empty {}
